@@ -177,16 +177,17 @@ CHECKS = {
         "technique": "Coq proof: finite sweep (vm_compute) lifted to all inputs by a proved reduction, on a model regenerated from the source + differential correspondence with an independent tokenizer",
     },
     "C06": {
-        "text": "Proved (C06_tables, reflective over EVERY SyntaxKind, on the functions regenerated from the source): precedenceOf is defined exactly on the 31 N-ary operator tokens and orders them "
-                "as the levels of C11 6.5.5-6.5.17, isRightAssociative holds exactly for '?' and the assignment operators, isNAryOperatorSyntax exactly on the operators, and each operator token maps "
-                "to the node kind of its operation.  PARTIAL: that the climbing loop builds exactly the grammar's tree for every token string is not yet a theorem; the hand-transcribed loop and the "
-                "grammar (recursive descent per level) are both executable in Coq, agree on all strings of length <=5 over a representative alphabet and on all 31^3 operator triples "
-                "(kernel-evaluated finite checks, labelled as such), and the implementation is compared with both on all operator pairs and triples, random trees through three printers, and "
-                "every unary/postfix/cast operator against every N-ary operator.",
-        "design_ref": "DESIGN.md section 6, C06",
-        "note": "Trusted: Coq kernel incl. vm_compute; T1 translator + IR semantics; operator table C06Spec.v (C11 6.5.5-6.5.17); hand-written climb model and reference parser; extraction; harness. "
-                "Not proved: unbounded equivalence of loop and grammar (C06_climb_is_grammar is open; the bounded lemmas are tests).",
-        "technique": "Coq reflective proof of the regenerated operator tables over all token kinds + executable loop/grammar models with exhaustive correspondence (unbounded loop theorem open)",
+        "text": "Theorems: C06_tables (reflective over EVERY SyntaxKind, on the functions regenerated from the source): precedenceOf is defined exactly on the 31 N-ary operator tokens and orders them as the levels "
+                "of C11 6.5.5-6.5.17, isRightAssociative holds exactly for '?' and the assignment operators, isNAryOperatorSyntax exactly on the operators, each operator token maps to the node kind of its "
+                "operation.  C06_climb_shape (unbounded: every token string, every nesting): in the tree the climbing loop returns every operator node's left operand binds at least as tightly as the node "
+                "(strictly for the right-associative operators) and its right operand strictly tighter (at least as tightly for those) — the grouping the grammar prescribes — and C03_expr_lossless: the tree's "
+                "in-order token string is the input.  PARTIAL: that the tree EQUALS the one of the recursive-descent reference is kernel-evaluated only on all strings of length <=5 over a representative "
+                "alphabet and all 31^3 operator triples (labelled as bounded); the implementation is compared with loop and grammar on all operator pairs and triples, random trees through three "
+                "printers, and every unary/postfix/cast operator against every N-ary operator.",
+        "design_ref": "DESIGN.md section 6, C06 and section 12",
+        "note": "Trusted: Coq kernel incl. vm_compute; T1 translator + IR semantics; operator table C06Spec.v (C11 6.5.5-6.5.17); hand-written climb model (tables taken as empty outside the SyntaxKind values) and "
+                "reference parser; extraction; harness. Not proved: uniqueness of the well-shaped tree / equality with the reference for unbounded inputs. Print Assumptions: closed under the global context.",
+        "technique": "Coq reflective proof of the regenerated operator tables + unbounded invariant proof of the loop's tree shape (mutual induction on fuel) + executable loop/grammar models with exhaustive correspondence",
     },
     "C16": {
         "text": "Theorems for EVERY text (lists of characters with UTF-16 widths, any length): C16_position — the model of the line-start table + computePosition reports, for the offset "
